@@ -44,14 +44,18 @@ def tape_lit(calls):
 
 
 def gen_int_case(rng):
-    which = rng.choice(['1site', '1site', '2site'])
+    which = rng.choice(['1site', '2site'])
     order = rng.choice([1, 2, 3, 3]) if which == '1site' else rng.choice([2, 3, 3])
     dims = [rng.randint(1, 2) for _ in range(order)]
     if all(d == 1 for d in dims):
         dims[rng.randrange(order)] = 2
     cplx = rng.random() < 0.4
+    xr = rranks(rng, order, 2)
+    if which == '2site' and rng.random() < 0.7:      # room for several singular values, so that truncation rules matter
+        dims = [2] * order
+        xr = [1] + [2] * (order - 1) + [1]
     A = nonsym_op(rng, dims, rranks(rng, order, 2), cplx)
-    x0 = gen_tt(rng, dims, [1] * order, rranks(rng, order, 2), cplx and rng.random() < 0.7, 'int')
+    x0 = gen_tt(rng, dims, [1] * order, xr, cplx and rng.random() < 0.7, 'int')
     hh = rng.choice([1, 1, 2])
     steps = rng.randint(1, 2)
     tape = ExpmTape(rng, 'arb', cplx=True, lo=-1, hi=1)
@@ -64,8 +68,8 @@ def gen_int_case(rng):
             if which == '1site':
                 sol = ode.tdvp1site(A, x0, float(2 * hh), steps)
             else:
-                thr = rng.choice([0, 0.25, 0.5])
-                maxr = rng.choice([np.inf, 1, 2])
+                thr = rng.choice([0, 0.25, 0.5, 0.3])
+                maxr = rng.choice([np.inf, np.inf, 1, 2, 3])
                 sol = ode.tdvp2site(A, x0, float(2 * hh), steps, threshold=thr, max_rank=maxr)
     finally:
         ode.expm_multiply = saved
@@ -257,7 +261,7 @@ def side_case(seed):
 def run(ctx):
     quick = ctx.tier == 'quick'
     lib.stage_proof(ctx, PROP_FILES, ['Check/C11.vo'])
-    n = 120 if quick else 2000
+    n = 160 if quick else 2500
     cases, metas = [], []
     for k in range(n):
         cs = ctx.rng.getrandbits(48)
